@@ -48,8 +48,8 @@ def check(ctx):
     pp = Prov(prep)
     mk = prep.calls_to("preparation::make_exec_ctx")
     if ctx.require(len(mk) == 1, "R-FLOW", "counter:prepare-anchor", "prepare calls make_exec_ctx once", "prepare no longer calls make_exec_ctx once"):
-        a0 = pp.operand(mk[0].args[0])
-        a1 = pp.operand(mk[0].args[1])
+        a0 = pp.operand(lib.arg_named(F, mk[0], "prev_ingredients", 0))
+        a1 = pp.operand(lib.arg_named(F, mk[0], "current_ingredients", 1))
         ok0 = a0[0] == "agg" and a0[1].endswith("ExecCtxIngredients") and lib.mentions_param(a0[3]["last_call_request_id"], "prev_data") \
             and not lib.mentions_param(a0, "current_data")
         ok1 = a1[0] == "agg" and lib.mentions_param(a1[3]["last_call_request_id"], "current_data") and not lib.mentions_param(a1, "prev_data")
